@@ -50,6 +50,26 @@ Theorem C19_path_order_of_siblings_is_name_order : forall (parent : path) (a b :
 Proof. exact path_ltb_siblings. Qed.
 Print Assumptions C19_path_order_of_siblings_is_name_order.
 
+(* ---- observation W1 (not observable through load_tree_from_fs on this platform): on a
+   case-folding path flavour (Windows) `sorted(dirs, key=itemgetter(0))` orders sibling
+   folders by their LOWER-CASED names while `files` are ordered by their names as they are.
+   [visit_win] is [visit] with that Path order; its output for  B/  a/  B.t  a.t  lists the
+   files as B.t, a.t and the folders as a, B -- the folder statement [ordered] fails.  The
+   Path order of that flavour is exercised with PureWindowsPath (case kind CPathSortW).
+   Sorting `dirs` by o.name instead of by the Path would make both orders the same on
+   every flavour and changes nothing on POSIX (previous theorem). ---- *)
+Theorem C19_windows_flavour_orders_folders_by_folded_name : forall (parent : path) (a b : text),
+  path_ltb_win (parent ++ [a]) (parent ++ [b]) = text_ltb (fold_text a) (fold_text b).
+Proof. exact path_ltb_win_siblings. Qed.
+Print Assumptions C19_windows_flavour_orders_folders_by_folded_name.
+
+Theorem C19_windows_flavour_breaks_folder_order :
+  map ft_name (visit_win 2 [] win_witness) = [[66; 46; 116]; [97; 46; 116]; [97]; [66]] /\
+  map ft_name (load true win_witness) = [[66; 46; 116]; [97; 46; 116]; [66]; [97]] /\
+  ~ ordered (visit_win 2 [] win_witness).
+Proof. exact (conj (proj1 win_witness_names) (conj (proj2 win_witness_names) win_witness_not_ordered)). Qed.
+Print Assumptions C19_windows_flavour_breaks_folder_order.
+
 (* ---- one node per file and folder, at the same path, with name / flag / size / mtime ----
    [dir_entries pre l]  = the (path, FileSystemEntry) pairs of all files and folders below a listing,
    [tree_entries pre f] = the (path, node.data) pairs of all nodes of a forest;
